@@ -34,13 +34,16 @@ ASSUMPTIONS = [
     "Excl: options other than -m/-o/-g/-p in insopts/diropts/exeopts (external `install` fallback) belong to C32",
     "Excl: doins/doexe/dobin/... given a directory without -r (PMS does not say whether it is skipped or fatal); only dodoc and dohtml are required to reject it",
     "Excl: symlinks as doins/dodoc arguments in EAPI 0-3 (PMS: undefined before doins-symlink); compressed man pages (foo.1.gz) and multi-character sections (foo.3pm: man3 vs man3pm); man page names with a language code AND -i18n in EAPI 2-3",
-    "Excl: modes of implicitly created ancestor directories; ownership itself is not judged: -o/-g appear only with the current uid/gid, combined with setuid/setgid modes, to check that the requested special bits survive the chown",
+    "Excl: modes of implicitly created ancestor directories",
+    "fast tier also judges owner and timestamps of files installed by doins/doexe and of directories made by dodir/keepdir/doins -r against the option string of that request alone: uid/gid = the -o/-g given, else the process's; mtime equals the source's iff -p (sources carry a fixed 2001 mtime); an option string without -m leaves install(1)'s default mode 0755; foreign ids (1:1) are only enumerated when running as root",
+    "request histories have depth 2 through one helper object (as ebd._ipc_helpers keeps them for a whole build operation); what the first request left in the image is the pre-state of the judged second request",
+    "pre-existing destination entries (dangling symlink with/without target directory, live symlink, regular file) use relative link targets so that nothing can be written outside the scratch image",
     "Excl: helpers banned per EAPI (dohard 4+, dohtml/dolib 7+) are banned on the bash side and only checked by the e2e tier",
     "umask 022 during every invocation",
 ]
 BOUNDS = {
-    "quick": "fast: 16 helpers x EAPI {0,2,3,4,6,7,8} x up to 3 destinations x up to 3 option strings x 4-12 argument lists, plus {-m4755,-m2755,-m6755} x {-o uid,-g gid} in insopts/exeopts/diropts (2572 invocations); sym: all 25 x 23 (source, link) pairs incl. un-normalised spellings; e2e: 18 real-daemon src_install sessions (every helper once; 5/4/9 sessions for EAPI 0/4/8, one per band, covering each band's rules)",
-    "thorough": "fast: EAPI 0-8, destinations {default,/,/usr,/opt/x,/opt/x/,dir with space} x all option strings x all argument lists, same special-bit/owner options (6661 invocations); sym: 131 x 76 pairs; e2e: 504 real-daemon sessions (56 per EAPI 0-8)",
+    "quick": "fast: 16 helpers x EAPI {0,2,3,4,6,7,8} x up to 3 destinations x up to 3 option strings x 4-12 argument lists, plus {-m4755,-m2755,-m6755} x {-o uid,-g gid} in insopts/exeopts/diropts, 4 pre-existing destination states (dangling link with/without target dir, live link, regular file) for doins/doexe/dobin, and depth-2 request histories through one helper object whose second option string drops the mode / -p / -o / -g of the first (2770 invocations); sym: all 25 x 23 (source, link) pairs incl. un-normalised spellings; e2e: 18 real-daemon src_install sessions (every helper once; 5/4/9 sessions for EAPI 0/4/8, one per band, covering each band's rules)",
+    "thorough": "fast: EAPI 0-8, destinations {default,/,/usr,/opt/x,/opt/x/,dir with space} x all option strings x all argument lists, same special-bit/owner options, destination states and request histories (6915 invocations); sym: 131 x 76 pairs; e2e: 504 real-daemon sessions (56 per EAPI 0-8)",
 }
 
 TIME_CAP = {"thorough": 840}
@@ -52,6 +55,9 @@ SLOT = "0"
 
 
 # ------------------------------------------------------------------ the source tree (relative to the phase's cwd)
+SRC_MTIME_NS = 1_000_000_000 * 10**9 + 123_456_789  # every regular source file: 2001-09-09, with a sub-second part
+
+
 def build_source_tree(top):
     """Create the fixed work directory. Returns its path."""
     w = os.path.join(top, "work")
@@ -63,6 +69,7 @@ def build_source_tree(top):
         with open(p, "w") as f:
             f.write(text)
         os.chmod(p, mode)
+        os.utime(p, ns=(SRC_MTIME_NS, SRC_MTIME_NS))
 
     wf("f.txt", "f\n", 0o600)
     wf("x.sh", "#!/bin/sh\n", 0o755)
@@ -138,6 +145,31 @@ def _mode_of(opts, default):
     return mode
 
 
+def _attrs_of(opts):
+    """(uid|None, gid|None, preserve-timestamps) requested by an install(1) option string (-o/-g/-p in the alphabet)."""
+    toks = opts.split()
+    uid = gid = None
+    pres = False
+    i = 0
+    while i < len(toks):
+        t = toks[i]
+        if t in ("-o", "-g"):
+            if t == "-o":
+                uid = int(toks[i + 1])
+            else:
+                gid = int(toks[i + 1])
+            i += 2
+            continue
+        if t.startswith("-o"):
+            uid = int(t[2:])
+        elif t.startswith("-g"):
+            gid = int(t[2:])
+        elif t == "-p":
+            pres = True
+        i += 1
+    return {"uid": uid, "gid": gid, "p": pres}
+
+
 def _j(*parts):
     return "/" + "/".join(c for part in parts for c in part.split("/") if c)
 
@@ -165,6 +197,7 @@ def expected(inv, w):
     args = inv["args"]
     recursive = "-r" in inv.get("flags", ())
     files, dirs = {}, {}
+    fattrs = dattrs = None  # owner / timestamp requests of the option strings (doins, doexe, dodir, keepdir)
     if inv.get("tier") == "e2e" and ((h == "dohard" and eapi >= 4) or (h in ("dohtml", "dolib") and eapi >= 7)):
         return ("reject",)  # banned helpers (enforced by the helper scripts)
 
@@ -175,7 +208,7 @@ def expected(inv, w):
                 raise _Excluded()  # only doins, from EAPI 4, has defined symlink behaviour
             files[dst] = ("sym", os.readlink(os.path.join(w, src)))
         else:
-            files[dst] = ("file", mode, src)
+            files[dst] = ("file", mode, src, fattrs)
 
     def put_tree(dest, src, fmode, dmode):
         for rel, kind, s in _walk_tree(w, src):
@@ -197,11 +230,15 @@ def expected(inv, w):
             for a in args:
                 put_file(_j(dest, os.path.basename(a)), a, mode)
         elif h in ("doins", "doexe"):
+            # an explicitly set option string without -m leaves install(1)'s own default, 0755
             if h == "doins":
-                dest, fmode = st.get("insinto", "/"), _mode_of(st.get("insopts", "-m0644"), 0o644)
+                dest, fmode = st.get("insinto", "/"), _mode_of(st.get("insopts", "-m0644"), 0o755)
+                fattrs = _attrs_of(st.get("insopts", "-m0644"))
             else:
                 dest, fmode = st.get("exeinto", "/"), _mode_of(st.get("exeopts", "-m0755"), 0o755)
+                fattrs = _attrs_of(st.get("exeopts", "-m0755"))
             dmode = _mode_of(st.get("diropts", "-m0755"), 0o755)
+            dattrs = _attrs_of(st.get("diropts", "-m0755"))
             for a in args:
                 if _src_kind(w, a) == "dir":
                     if not (recursive and h == "doins"):
@@ -261,9 +298,11 @@ def expected(inv, w):
                 elif ok(os.path.basename(a)):
                     put_file(_j(dest, os.path.basename(a)), a, 0o644)
         elif h == "dodir":
+            dattrs = _attrs_of(st.get("diropts", "-m0755"))
             for a in args:
                 dirs[_j(a)] = _mode_of(st.get("diropts", "-m0755"), 0o755)
         elif h == "keepdir":
+            dattrs = _attrs_of(st.get("diropts", "-m0755"))
             for a in args:
                 dirs[_j(a)] = _mode_of(st.get("diropts", "-m0755"), 0o755)
                 files[_j(a, ".keep*")] = ("keep",)
@@ -289,9 +328,11 @@ def expected(inv, w):
             raise AssertionError(h)
     except _Excluded:
         return None
-    for p in inv.get("pre_files", {}):
-        files.setdefault(p, ("any",))
-    return ("ok", files, dirs)
+    for p, text in inv.get("pre_files", {}).items():
+        files.setdefault(p, ("pre", text))  # untouched unless it is a destination of the request
+    for p, target in inv.get("pre_links", {}).items():
+        files.setdefault(p, ("sym", target))
+    return ("ok", files, dirs, dattrs)
 
 
 class _Excluded(Exception):
@@ -418,6 +459,17 @@ class _FakeOp:
         self.domain = None
 
 
+def snapshot_attrs(ED):
+    """path -> (uid, gid, mtime_ns) of every entry of the image (lstat)."""
+    out = {}
+    for dp, dns, fns in os.walk(ED):
+        rel = dp[len(ED) :] or "/"
+        for n in list(dns) + fns:
+            st_ = os.lstat(os.path.join(dp, n))
+            out[_j(rel, n)] = (st_.st_uid, st_.st_gid, st_.st_mtime_ns)
+    return out
+
+
 def snapshot(ED):
     files, dirs = {}, {}
     for dp, dns, fns in os.walk(ED):
@@ -452,24 +504,42 @@ def run_fast(inv, w, ED):
         os.makedirs(os.path.dirname(ED + p), exist_ok=True)
         with open(ED + p, "w") as f:
             f.write(text)
+    for p, target in inv.get("pre_links", {}).items():
+        os.makedirs(os.path.dirname(ED + p), exist_ok=True)
+        os.symlink(target, ED + p)
     op = _FakeOp(get_eapi(str(inv["eapi"])), ED)
+    # one helper object serves every request of a build operation (ebd._ipc_helpers): a history sends its first
+    # request through the very instance that then serves the judged one
     helper = getattr(ebd_ipc, HELPER_CLASS[inv["helper"]])(op)
-    peer = _Peer(["false", w, "install", " ".join(wire_options(inv)), "\0".join(wire_args(inv))])
     old_umask = os.umask(0o022)
     cwd = os.getcwd()
+    first = None
     try:
-        try:
-            helper(peer)
-            out = ("ok", peer.written[-1] if peer.written else None)
-        except ebd_ipc.IpcCommandError as e:
-            out = ("reject", str(e)[:200])
-        except ebd_ipc.IpcInternalError as e:
-            out = ("error", f"IpcInternalError from {type(e.__cause__).__name__}: {e.__cause__}"[:300])
+        requests = ([hist_first(inv)] if "hist" in inv else []) + [inv]
+        for i, rq in enumerate(requests):
+            peer = _Peer(["false", w, "install", " ".join(wire_options(rq)), "\0".join(wire_args(rq))])
+            try:
+                helper(peer)
+                out = ("ok", peer.written[-1] if peer.written else None)
+            except ebd_ipc.IpcCommandError as e:
+                out = ("reject", str(e)[:200])
+            except ebd_ipc.IpcInternalError as e:
+                out = ("error", f"IpcInternalError from {type(e.__cause__).__name__}: {e.__cause__}"[:300])
+            if i < len(requests) - 1:
+                first = (out,) + snapshot(ED)
+                if out[0] != "ok":
+                    break
     finally:
         os.umask(old_umask)
         os.chdir(cwd)
     files, dirs = snapshot(ED)
-    return out + (files, dirs)
+    return out + (files, dirs, snapshot_attrs(ED), first)
+
+
+def hist_first(inv):
+    """The first request of a depth-2 history: same helper, same EAPI, its own option state and arguments."""
+    h = inv["hist"]
+    return dict(inv, state=h["state"], args=h["args"], flags=h.get("flags", []))
 
 
 def _ancestors(p):
@@ -482,14 +552,24 @@ def _ancestors(p):
 
 def judge(inv, exp, got, w):
     """-> (list of (kind, msg), outcome-class)"""
-    status, detail, files, dirs = got
+    status, detail, files, dirs = got[:4]
+    attrs = got[4] if len(got) > 4 else None  # fast tier only: owner / timestamps
+    first = got[5] if len(got) > 5 else None
+    if first is not None and first[0][0] != "ok":
+        return [("history-first-request-failed", f"first request of the history failed: {first[0]}")], "FAIL"
     if exp[0] == "reject":
         if status == "reject":
             return [], "rejected-as-required"
         if status == "error":
             return [("reject-by-crash", f"PMS forbids this call; the helper died with an internal error instead of a command error: {detail}")], "FAIL"
         return [("not-rejected", f"PMS forbids this call but the helper succeeded, image now holds {sorted(files)}")], "FAIL"
-    _, efiles, edirs = exp
+    efiles, edirs, dattrs = dict(exp[1]), exp[2], exp[3]
+    before_dirs = set()
+    if first is not None:
+        # what the first request left behind is the pre-state of the judged one
+        for p0 in first[1]:
+            efiles.setdefault(p0, ("any",))
+        before_dirs = set(first[2])
     if status != "ok":
         return [("failed", f"valid call failed ({status}): {detail}")], "FAIL"
     if detail not in (0, "0") and not str(detail).startswith("0"):
@@ -514,6 +594,10 @@ def judge(inv, exp, got, w):
         matched.add(p)
         if v[0] == "any":
             continue
+        if v[0] == "pre":
+            if g[0] != "file" or g[2] != v[1]:
+                fails.append(("pre-existing-changed", f"{p}: pre-existing file {v[1]!r} is now {g[:3]}"))
+            continue
         if v[0] == "file":
             with open(os.path.join(w, v[2])) as f:
                 content = f.read()
@@ -523,6 +607,14 @@ def judge(inv, exp, got, w):
                 fails.append(("content", f"{p}: content {g[2]!r} != source {content!r}"))
             elif v[1] is not None and g[1] != v[1]:
                 fails.append(("mode", f"{p}: mode {g[1]:04o}, requested {v[1]:04o}"))
+            elif attrs is not None and len(v) > 3 and v[3] is not None:
+                uid, gid, mt = attrs[p]
+                want_uid = v[3]["uid"] if v[3]["uid"] is not None else os.geteuid()
+                want_gid = v[3]["gid"] if v[3]["gid"] is not None else os.getegid()
+                if (uid, gid) != (want_uid, want_gid):
+                    fails.append(("owner", f"{p}: owner {uid}:{gid}, the option string asks for {want_uid}:{want_gid}"))
+                elif v[3]["p"] != (mt == SRC_MTIME_NS):
+                    fails.append(("timestamp", f"{p}: mtime {'equals' if mt == SRC_MTIME_NS else 'differs from'} the source's although the option string has {'' if v[3]['p'] else 'no '}-p"))
         elif v[0] == "sym":
             if g[0] != "sym" or g[1] != v[1]:
                 fails.append(("symlink", f"{p}: expected symlink -> {v[1]!r}, got {g[:2]}"))
@@ -541,7 +633,7 @@ def judge(inv, exp, got, w):
     allowed_dirs = set(edirs) | set(keep)
     for p in list(efiles) + list(edirs):
         allowed_dirs |= _ancestors(p if not p.endswith("/.keep*") else p[: -len("/.keep*")] + "/x")
-    for d in list(inv.get("pre_dirs", ())) + [dest_dir(inv)]:
+    for d in list(inv.get("pre_dirs", ())) + [dest_dir(inv)] + [os.path.dirname(q) for q in list(inv.get("pre_files", {})) + list(inv.get("pre_links", {}))]:
         if d:
             allowed_dirs.add(d)
             allowed_dirs |= _ancestors(d)
@@ -552,7 +644,13 @@ def judge(inv, exp, got, w):
             fails.append(("missing-dir", f"{d}: directory not created"))
         elif mode is not None and dirs[d] != mode:
             fails.append(("dir-mode", f"{d}: mode {dirs[d]:04o}, requested {mode:04o}"))
-    extra_d = sorted(set(dirs) - allowed_dirs)
+        elif attrs is not None and dattrs is not None:
+            uid, gid, _mt = attrs[d]
+            want_uid = dattrs["uid"] if dattrs["uid"] is not None else os.geteuid()
+            want_gid = dattrs["gid"] if dattrs["gid"] is not None else os.getegid()
+            if (uid, gid) != (want_uid, want_gid):
+                fails.append(("dir-owner", f"{d}: owner {uid}:{gid}, the option string asks for {want_uid}:{want_gid}"))
+    extra_d = sorted(set(dirs) - allowed_dirs - before_dirs)
     if extra_d:
         fails.append(("extra-dir", f"unrequested directories {extra_d}"))
     return fails, ("FAIL" if fails else "placed")
@@ -611,6 +709,27 @@ def fast_invocations(tier):
             add("doexe", eapi, {"exeinto": "/opt/x", "exeopts": opt}, ["x.sh"])
             add("dodir", eapi, {"diropts": opt}, ["/a", "/b/c"])
             add("keepdir", eapi, {"diropts": opt}, ["/var/lib/x"])
+        # pre-existing image entries at the destination: the request replaces them (never writes through a symlink)
+        for h, st, ddir, srcs in (
+            ("doins", {"insinto": "/opt/x"}, "/opt/x", ["f.txt"] + (["l.txt"] if eapi >= 4 else [])),
+            ("doexe", {"exeinto": "/opt/x"}, "/opt/x", ["x.sh"]),
+            ("dobin", {}, "/usr/bin", ["f.txt"]),
+        ):
+            for src in srcs:
+                dst = f"{ddir}/{src}"
+                add(h, eapi, st, [src], pre_links={dst: "other/t"}, pre_dirs=[ddir + "/other"])  # dangling, target dir exists
+                add(h, eapi, st, [src], pre_links={dst: "missing/t"})  # dangling, target dir missing
+                add(h, eapi, st, [src], pre_links={dst: "other/t"}, pre_files={ddir + "/other/t": "old\n"})  # live link
+                add(h, eapi, st, [src], pre_files={dst: "old\n"})  # regular file
+        # depth-2 request histories through ONE helper object: the second option string omits something the first had
+        for key, h, st, a1, a2, pairs in (
+            ("insopts", "doins", {"insinto": "/opt/x"}, ["f.txt"], ["x.sh"], option_drop_pairs("-m0600", "-m0644")),
+            ("exeopts", "doexe", {"exeinto": "/opt/x"}, ["x.sh"], ["f.txt"], option_drop_pairs("-m0700", "-m0755")),
+            ("diropts", "dodir", {}, ["/a"], ["/b/c"], option_drop_pairs("-m0700", "-m0755", files=False)),
+            ("diropts", "keepdir", {}, ["/a"], ["/b/c"], option_drop_pairs("-m0700", "-m0755", files=False)),
+        ):
+            for o1, o2 in pairs:
+                add(h, eapi, dict(st, **{key: o2}), a2, hist={"state": dict(st, **{key: o1}), "args": a1})
         add("doinfo", eapi, {}, ["v.info"])
         add("doinfo", eapi, {}, ["v.info", "f.txt"])
         for a in (["man/foo.1"], ["man/foo.de.1"], ["man/foo.pt_BR.1"], ["man/bar.3"], ["man/baz.n"], ["man/nosect"], ["man/foo.1", "man/bar.3"], ["man/foo.1", "man/nosect"]):
@@ -642,6 +761,17 @@ def fast_invocations(tier):
             for src, link in (("/usr/bin/real", "/usr/bin/hard"), ("/usr/bin/real", "/other/dir/hard"), ("/real", "/hard")):
                 add("dohard", eapi, {}, [src, link], pre_files={src: "realfile\n"})
     return out
+
+
+def option_drop_pairs(odd_mode, plain_mode, files=True):
+    """(first option string, second option string): the second omits the mode / -p / owner / group of the first.
+    Foreign owners need root; 1:1 is just a numeric id different from root's."""
+    pairs = [(odd_mode, "-p")]
+    if files:
+        pairs.append((f"{plain_mode} -p", plain_mode))
+    if os.geteuid() == 0:
+        pairs += [(f"{plain_mode} -o 1", plain_mode), (f"{plain_mode} -g 1", plain_mode)]
+    return pairs
 
 
 def special_owner_opts():
